@@ -117,7 +117,7 @@ CHECKS = {
                      "from another group / generator / extra key share.  ~8000 verifier runs per quick run; mutations equal to the "
                      "original are skipped and counted.",
                 note=SAN_NOTE + "; public inputs +p/+q and non-member public inputs are recorded, not judged (C06's subject); QR family: -v, m-v, v+m recorded only"),
-    "C12": dict(ready=False, engine="case-runner", level="fault_enumeration", design_ref="DESIGN.md section 3 / C12, notes/c12.md",
+    "C12": dict(ready=True, engine="case-runner", level="fault_enumeration", design_ref="DESIGN.md section 3 / C12, notes/c12.md",
                 technique="sanitizer-instrumented structure-aware mutation of valid artefacts over 111 entry points plus coverage-guided libFuzzer passes; outcome oracle = clean refusal",
                 text="23 600 mutated inputs per quick run (13-20 mutation classes x 111 entry points: importers, stream "
                      "constructors + CheckGroup, key operations, the reading side of every verifier with a hostile peer, OpenPGP "
@@ -132,7 +132,7 @@ CHECKS = {
                      "parties, FIFO on/off, channel scripts and both delivery APIs; oracles: agreement, no duplication, no creation, "
                      "FIFO order, channel isolation, echo/ready discipline, and validity/totality at quiescence of the closed system.",
                 note=SAN_NOTE + "; 'eventually' is replaced by quiescence of a closed system; no protocol-model exhaustiveness (other technique family); n<=7"),
-    "C15": dict(ready=False, engine="simnet", level="exploration", design_ref="DESIGN.md section 3 / C15, notes/c15.md",
+    "C15": dict(ready=True, engine="simnet", level="exploration", design_ref="DESIGN.md section 3 / C15, notes/c15.md",
                 technique="end-state monitor with an independent Lagrange interpolation over every (t+1)-subset of honest shares, after real n-party runs in the deterministic simulator with scripted deviations",
                 text="152 scenarios per quick run over six protocols (PedersenVSS, New-DKG, Joint-RVSS/ZVSS, CGJKR DKG incl. Refresh, "
                      "JL-RVSS), n=2..7, every faulty singleton for n=4,5, deviations: built-in faulty switch, wrong share, false "
@@ -140,7 +140,7 @@ CHECKS = {
                      "pre-emption; QUAL/y/commitment agreement, share relations, every-subset interpolation, Reconstruct, Refresh, "
                      "and honest-timeout/split-timeout liveness markers within the synchrony assumption.",
                 note=SAN_NOTE + "; adversaries are scripted, not adaptive; virtual time keeps runs inside the synchrony assumption; open known findings listed in KNOWN_FINDINGS.txt"),
-    "C16": dict(ready=False, engine="simnet", level="exploration", design_ref="DESIGN.md section 3 / C16, notes/c16.md",
+    "C16": dict(ready=True, engine="simnet", level="exploration", design_ref="DESIGN.md section 3 / C16, notes/c16.md",
                 technique="offline Python verifier (textbook Schnorr/DSA equations, library hash re-implemented with hashlib) over the outputs of simulated threshold signing runs; differential range-boundary probes of the library verifiers",
                 text="Threshold Schnorr (NTS) and threshold DSS runs in the simulator for n=3..5 (..7 thorough), messages "
                      "{0,1,q-1,q,random}, faulty signer sets, before/after Refresh, reduced signer sets: every honest party whose "
